@@ -779,6 +779,9 @@ pub fn gen_thread_scn(verif_seed: u64, idx: u64, small: bool) -> ThreadScn {
             wa.push(MAct::Set(0, g.v()));
             wa.push(MAct::Peek(0));
         }
+        // ... and then cycles remove()+set() on the entry it created, so that the counter moves
+        // between 0, 1 and 2 while both workers update it
+        wa.push(MAct::Churn { i: 0, rounds, v0: g.vblock() });
         let wb = vec![MAct::Churn { i: 0, rounds, v0: g.vblock() }];
         // split() yields (left, right): left = the value-less side, right = the valued side
         return ThreadScn { verif_seed, idx, script, cuts, workers: vec![wa, wb] };
